@@ -24,7 +24,9 @@ SetCh(v)   == blk = 1 /\ blk' = blk /\ named' = named /\ last' = "set"
               /\ (IF v \in {2, 26, 80} THEN own' = v /\ rfch' = v ELSE UNCHANGED <<own, rfch>>)
 SetName(b) == blk = 1 /\ named # b /\ named' = b /\ UNCHANGED <<rfch, own, blk>> /\ last' = "name"
 Advertise  == blk = 1 /\ UNCHANGED <<rfch, own, blk, named>> /\ last' = "adv"
-Next == EnterBle \/ ExitBlk \/ EnterOther \/ Hop \/ (\E v \in {2, 26, 80, 50} : SetCh(v)) \/ (\E b \in BOOLEAN : SetName(b)) \/ Advertise
+\* the application reads ble.channel (anywhere, also while the radio holds another object's configuration): a read changes nothing
+ReadCh     == last # "read" /\ UNCHANGED <<rfch, own, blk, named>> /\ last' = "read"
+Next == EnterBle \/ ExitBlk \/ EnterOther \/ Hop \/ (\E v \in {2, 26, 80, 50} : SetCh(v)) \/ (\E b \in BOOLEAN : SetName(b)) \/ Advertise \/ ReadCh
 Spec == Init /\ [][Next]_vars
 C18_TunedInOwnBlock == blk = 1 => rfch = own /\ own \in {2, 26, 80}
 Depth == TLCGet("level") <= 7
